@@ -170,7 +170,7 @@ impl Property for C02 {
     fn cases(&self, tier: Tier) -> usize {
         match tier {
             Tier::Quick => 30_000,
-            Tier::Thorough => 600_000,
+            Tier::Thorough => 3_000_000,
         }
     }
     fn strategy(&self, _tier: Tier) -> BoxedStrategy<TrajCase> {
